@@ -27,6 +27,7 @@ func init() {
 			{"C09/lock-pairing", "every Lock/RLock is released on all exits", c09LockPairing},
 			{"C09/conn-writers", "client connections are written only by Transport.WritePacket (which C09/tunnel shows runs under the tunnel's write mutex)", c09ConnWriters},
 			{"C09/pool-alias", "no object is returned to a sync.Pool while memory aliasing it is returned, stored or sent", c09PoolAlias},
+			{"C09/buffer-ownership", "a packet is assembled and handed on in storage of the call or the connection: no package-level buffer, no pooled buffer that the returned payload still aliases", func(c *Ctx) { packetBuffersPrivate(c, "C09/buffer-ownership") }},
 			{"C09/handoff", "legacy hand-off: the OUT handler's last write precedes publication in the cache; HTTP/2 disabled", c09Handoff},
 		},
 	})
@@ -642,6 +643,13 @@ func c09PoolAlias(c *Ctx) {
 					}
 				}
 			})
+			// the Get the object came from: a value with the same origin is the same object
+			objFrom := map[ssa.Value]bool{}
+			for _, o := range c.bufOrigins(obj) {
+				if o.Kind == "call" && o.Call != nil && calleeName(o.Call) == "(*sync.Pool).Get" {
+					objFrom[o.Value] = true
+				}
+			}
 			escapes := ""
 			eachInstr(f, func(in ssa.Instruction) {
 				switch x := in.(type) {
@@ -650,8 +658,8 @@ func c09PoolAlias(c *Ctx) {
 						if aliases[strip(unspill(r))] {
 							escapes = "returned"
 						}
-						for _, o := range origins(r) {
-							if o.Value != nil && aliases[strip(o.Value)] {
+						for _, o := range c.bufOrigins(r) {
+							if o.Value != nil && (aliases[strip(o.Value)] || objFrom[o.Value]) {
 								escapes = "returned"
 							}
 						}
